@@ -165,3 +165,18 @@ def msum_empty_dom(dt, dom, val):
     USED.add('msum_empty')
     k = z3.Const('me!k', dt.k.sort())
     return [z3.Implies(z3.ForAll([k], z3.Not(dom[k])), msum_fn(dt)(dom, val) == 0)]
+
+
+def msum_zero(dt, dom, val):
+    """Lean: msum_zero (Finset.sum_eq_zero): all values on the key set are 0 => the sum is 0"""
+    USED.add('msum_zero')
+    k = z3.Const('mz!k', dt.k.sort())
+    return [z3.Implies(z3.ForAll([k], z3.Implies(dom[k], val[k] == 0)), msum_fn(dt)(dom, val) == 0)]
+
+
+def msum_div(dt, dom, v2, v1, c):
+    """Lean: msum_div (msum_scale with 1/c): v2 = v1 / c pointwise on the key set => msum v2 = msum v1 / c"""
+    USED.add('msum_div')
+    k = z3.Const('dv!k', dt.k.sort())
+    f = msum_fn(dt)
+    return [z3.Implies(z3.ForAll([k], z3.Implies(dom[k], v2[k] == v1[k] / c)), f(dom, v2) == f(dom, v1) / c)]
